@@ -455,6 +455,37 @@ def run(ctx):
         falses = [bb for bb, i, st in sf.all_stmts() if st["k"] == "assign" and st["place"] == {"l": 0} and st["rv"]["k"] == "use"
                   and const_int(st["rv"]["op"]) == 0]
         bad10 = [bb for bb in falses if bb not in dead and not cfg.paths_must_pass(sf, 0, reads, [bb])]
+        # ... unless the early "no" rests on a hint that every writer of the flag raises: the unbacked exit is on the false
+        # side of a read of an atomic field H (`dirty.swap(false)` / `load`), and each place that sets the flag to true also
+        # stores `true` into H (an `AtomicBool::store(.., true)` on that field in the same function).  Then the hint is
+        # exact, and the rule has nothing to say.
+        if bad10:
+            hints = set()
+            for bb in bad10:
+                for gf in flow.guard_facts(ctx.prog, sf, bb):
+                    if gf[0] == "call" and gf[2] is False and "Atomic" in gf[1] and gf[1].rsplit("::", 1)[-1] in ("swap", "load", "fetch_and", "compare_exchange"):
+                        for o in flow.origins(sf, gf[3].args[0], through_calls=lambda q: 0 if q.name.endswith(("::deref", "::as_ref")) else None):
+                            if o.kind == "arg" and o.proj:
+                                hints.add([x for x in o.proj if not x.startswith("as ")][-1])
+            covered = bool(hints)
+            for (wf, wbb, wv) in flag_writes(ctx.prog):
+                if wv == 0:
+                    continue
+                raised = False
+                host = ctx.prog.fns.get(wf.root) if wf.kind == "closure" and wf.root else wf
+                for g in [wf, host]:
+                    for c in g.calls():
+                        if "Atomic" in c.name and c.name.rsplit("::", 1)[-1] == "store" and len(c.args) >= 2 and const_int(c.args[1]) == 1:
+                            for o in flow.origins(g, c.args[0], through_calls=lambda q: 0 if q.name.endswith(("::deref", "::as_ref")) else None):
+                                names = set(o.proj) if o.kind == "arg" else set()
+                                if g.kind == "closure" and o.kind == "arg" and o.arg == 1:
+                                    names |= {"*"}
+                                if names & hints or ("*" in names):
+                                    raised = True
+                if not raised:
+                    covered = False
+            if covered:
+                bad10 = []
         ctx.ob("C20.A10.no-reload-is-answered-only-after-the-flag-was-read", SHOULD, bool(reads) and not bad10,
                "a path of the poll returns `false` without having read the flag (%d constant-false exits, %d of them unbacked): "
                "a request that was recorded is not seen" % (len(falses), len(bad10)), sf.where(bad10[0] if bad10 else 0))
